@@ -411,3 +411,124 @@ Proof.
     rewrite ahas_in in Hg, Hk, Hgn. cbn in Hk, Hgn.
     eapply trim_order; eauto.
 Qed.
+
+(* ------------------------------------------------------------------ counters as functions of the history *)
+(* (hits, misses) since the last reset_statistics: one per lookup *)
+Fixpoint stats_of (h : list event) : Z * Z :=
+  match h with
+  | [] => (0, 0)
+  | (ResetStats, _) :: _ => (0, 0)
+  | (Get _, RAns _) :: r => (fst (stats_of r) + 1, snd (stats_of r))
+  | (Get _, _) :: r => (fst (stats_of r), snd (stats_of r) + 1)
+  | _ :: r => stats_of r
+  end.
+
+(* successful lookups of k since k was last stored *)
+Fixpoint key_hits (h : list event) (k : Z) : Z :=
+  match h with
+  | [] => 0
+  | (Put k' _, _) :: r => if k' =? k then 0 else key_hits r k
+  | (Get k', RAns _) :: r => (if k' =? k then 1 else 0) + key_hits r k
+  | _ :: r => key_hits r k
+  end.
+
+Lemma astats_step : forall cl a k h,
+  (a_hits a, a_miss a) = stats_of h ->
+  (a_hits (snd (fst (alru_step cl a k))), a_miss (snd (fst (alru_step cl a k)))) =
+  stats_of ((cl, fst (fst (alru_step cl a k))) :: h).
+Proof.
+  intros cl a k h H.
+  assert (H1 : a_hits a = fst (stats_of h)) by (rewrite <- H; reflexivity).
+  assert (H2 : a_miss a = snd (stats_of h)) by (rewrite <- H; reflexivity).
+  Ltac fin H H1 H2 := cbn; first [exact H | rewrite H1, H2; reflexivity | reflexivity].
+  destruct cl as [key|key v|[key|]|mx|key| | | |]; cbn [alru_step]; try (fin H H1 H2).
+  - destruct (afind (a_list a) key) as [e|]; [|fin H H1 H2].
+    destruct (tick k) as [t k1]. destruct (a_exp (e_val e) <=? t); fin H H1 H2.
+  - destruct (afind (a_list a) key) as [e|]; [|fin H H1 H2].
+    destruct (tick k) as [t k1]. destruct (a_exp (e_val e) <=? t); fin H H1 H2.
+Qed.
+
+Definition khits_ok (h : list event) (l : list aent) : Prop :=
+  Forall (fun e => e_hits e = key_hits h (e_key e)) l.
+
+Lemma khits_sub : forall h l l', (forall e, In e l' -> In e l) -> khits_ok h l -> khits_ok h l'.
+Proof. unfold khits_ok. intros h l l' H F. rewrite Forall_forall in *. auto. Qed.
+
+Lemma in_aremove : forall l k e, In e (aremove l k) -> In e l.
+Proof.
+  induction l as [|x l IH]; intros k e H; cbn in *; [auto|].
+  destruct (e_key x =? k); cbn in *; [auto|]. destruct H; eauto.
+Qed.
+
+Lemma khits_unused : forall ev h l,
+  (forall e, In e l -> key_hits (ev :: h) (e_key e) = key_hits h (e_key e)) ->
+  khits_ok h l -> khits_ok (ev :: h) l.
+Proof.
+  unfold khits_ok. intros ev h l H F. rewrite Forall_forall in *. intros e He.
+  rewrite (H e He). auto.
+Qed.
+
+Lemma in_aremove_key : forall l k e, NoDup (akeys l) -> In e (aremove l k) -> e_key e <> k.
+Proof.
+  intros l k e Hnd He Hk. subst k. apply (aremove_notin l (e_key e) Hnd). unfold akeys. apply in_map. exact He.
+Qed.
+
+Lemma khits_step : forall cl a k h,
+  NoDup (akeys (a_list a)) -> khits_ok h (a_list a) ->
+  khits_ok ((cl, fst (fst (alru_step cl a k))) :: h) (a_list (snd (fst (alru_step cl a k)))).
+Proof.
+  intros cl a k h Hnd HK.
+  destruct cl as [key|key v|[key|]|mx|key| | | |]; cbn [alru_step].
+  - destruct (afind (a_list a) key) as [e|] eqn:E.
+    2:{ cbn. apply khits_unused; [reflexivity|exact HK]. }
+    destruct (tick k) as [t k1]. destruct (a_exp (e_val e) <=? t); cbn.
+    + apply khits_unused; [reflexivity|]. eapply khits_sub; [|exact HK]. intros x. apply in_aremove.
+    + constructor.
+      * cbn. rewrite Z.eqb_refl. destruct (afind_key _ _ _ E) as [Hk Hin].
+        unfold khits_ok in HK. rewrite Forall_forall in HK. rewrite (HK e Hin), Hk. lia.
+      * apply khits_unused.
+        -- intros x Hx. cbn. pose proof (in_aremove_key _ _ _ Hnd Hx) as Hne.
+           destruct (key =? e_key x) eqn:E1; [apply Z.eqb_eq in E1; congruence|]. lia.
+        -- eapply khits_sub; [|exact HK]. intros x. apply in_aremove.
+  - cbn. constructor.
+    + cbn. rewrite Z.eqb_refl. reflexivity.
+    + apply khits_unused.
+      * intros x Hx. cbn. unfold atrim in Hx. apply in_firstn in Hx.
+        pose proof (in_aremove_key _ _ _ Hnd Hx) as Hne.
+        destruct (key =? e_key x) eqn:E1; [apply Z.eqb_eq in E1; congruence|]. reflexivity.
+      * eapply khits_sub; [|exact HK]. intros x Hx. unfold atrim in Hx. apply in_firstn in Hx.
+        eapply in_aremove; eauto.
+  - cbn. apply khits_unused; [reflexivity|]. eapply khits_sub; [|exact HK]. intros x. apply in_aremove.
+  - cbn. constructor.
+  - cbn. apply khits_unused; [reflexivity|]. eapply khits_sub; [|exact HK]. intros x Hx.
+    unfold atrim in Hx. eapply in_firstn; eauto.
+  - destruct (afind (a_list a) key) as [e|]; [|cbn; apply khits_unused; [reflexivity|exact HK]].
+    destruct (tick k) as [t k1]. destruct (a_exp (e_val e) <=? t); cbn; (apply khits_unused; [reflexivity|exact HK]).
+  - cbn. apply khits_unused; [reflexivity|exact HK].
+  - cbn. apply khits_unused; [reflexivity|exact HK].
+  - cbn. apply khits_unused; [reflexivity|exact HK].
+  - cbn. apply khits_unused; [reflexivity|exact HK].
+Qed.
+
+(* get_hits_for_key: the hits of the stored answer if it is still there and unexpired, else 0 *)
+Definition expected_hits (m : imap) (h : list event) (key : Z) (t : Z) : ret :=
+  match m key with
+  | Some v => if a_exp v <=? t then RInt 0 else RInt (key_hits h key)
+  | None => RInt 0
+  end.
+
+Lemma J_hitsfor : forall a key k m h, J a (now k) m -> khits_ok h (a_list a) -> nonneg (pend k) ->
+  fst (fst (alru_step (HitsFor key) a k)) =
+  expected_hits m h key (now (snd (alru_step (HitsFor key) a k))).
+Proof.
+  intros a key k m h HJ HK Hn. unfold expected_hits. cbn.
+  destruct (afind (a_list a) key) as [e|] eqn:E.
+  - rewrite (J_in _ _ _ HJ _ _ E).
+    destruct (tick k) as [t k1] eqn:Et. destruct (tick_spec _ _ _ Et Hn) as [A [B _]].
+    destruct (afind_key _ _ _ E) as [Hk Hin].
+    unfold khits_ok in HK. rewrite Forall_forall in HK. rewrite (HK e Hin), Hk.
+    destruct (a_exp (e_val e) <=? t) eqn:Ex; cbn; rewrite B, Ex; reflexivity.
+  - cbn. destruct (m key) as [v|] eqn:Em; [|reflexivity].
+    destruct (J_out _ _ _ HJ _ _ Em) as [[e [H _]]|H]; [congruence|].
+    apply Z.leb_le in H. rewrite H. reflexivity.
+Qed.
